@@ -12,6 +12,7 @@ CONSTANTS
   LoseDB = TRUE
   HeaderHasPrev = TRUE
   FixedF4 = "no"
+  Mode = "pp"
 INIT Init
 NEXT Next
 VIEW view
